@@ -26,8 +26,10 @@ def r_C13eval(root):
     def attr(name, c, cont, mult): return {".name": name, ".cls": c, ".cont": cont, ".mult": mult, ".ref": not cont, ".kind": "metaattr"}
     cID = cls("ID", RM); cLeaf = cls("Leaf", RC, {}); cS1 = cls("Special1", RC, {}); cS1["._tx_attrs"] = {"kid": attr("kid", cLeaf, True, "1")}; cS2 = cls("Special2", RC, {}); cBase = cls("Base", RA, {})
     cModel = cls("Model", RC); cModel["._tx_attrs"] = {"items": attr("items", cBase, True, "1..*"), "single": attr("single", cLeaf, True, "1"), "ref": attr("ref", cLeaf, False, "1"), "name": attr("name", cID, True, "1")}
+    _pos = [10]
     def obj(c, **kw):
-        o = {".__class__": c, "._tx_fqn": c["._tx_fqn"], ".kind": "obj"}
+        _pos[0] += 10
+        o = {".__class__": c, "._tx_fqn": c["._tx_fqn"], ".kind": "obj", "._tx_position": _pos[0], "._tx_position_end": _pos[0] + 5}
         for k, v in kw.items(): o["." + k] = v
         return o
     leafk = obj(cLeaf); s1 = obj(cS1, kid=leafk); s2 = obj(cS2); leaf1 = obj(cLeaf); leaf2 = obj(cLeaf)
@@ -35,13 +37,25 @@ def r_C13eval(root):
     R1 = {".kind": "replacement", ".tag": "by Special1"}; RB = {".kind": "replacement", ".tag": "by Base"}
     registered = {"Special1": lambda o: R1, "Base": lambda o: RB, "Leaf": lambda o: None, "Model": lambda o: None, "ID": lambda o: "processed-n"}
     log = []
-    def process(o, name, **loc): log.append((o, name, loc)); return registered[name](o)
+    # the stand-in binds its arguments the way the analysed TextXMetaModel.process declares them
+    pr_fn = find(load(root, "textx/metamodel.py"), "TextXMetaModel.process"); pr_ps = [a.arg for a in pr_fn.args.args][1:]
+    if len(pr_ps) < 2: raise AnalysisError("TextXMetaModel.process: expected (self, value, type name, location...), got %s" % pr_ps)
+    def process(*args, **kw):
+        if len(args) > len(pr_ps): raise pyeval.Raised("TypeError")
+        b = dict(zip(pr_ps, args))
+        for k_, v_ in kw.items():
+            if k_ in b or (k_ not in pr_ps and not pr_fn.args.kwarg): raise pyeval.Raised("TypeError")
+            b[k_] = v_
+        o, name = b.pop(pr_ps[0]), b.pop(pr_ps[1])
+        log.append((o, name, b)); return registered[name](o)
     mm = {".has_obj_processor": pyeval.PyFn(lambda n: n in registered), ".process": pyeval.PyFn(process), ".kind": "metamodel"}
     for c in (cID, cLeaf, cS1, cS2, cBase, cModel): mm[c[".__name__"]] = c; mm[c["._tx_fqn"]] = c
     env = {"__functions__": fns, ps[0]: mm, ps[1]: model, "RULE_MATCH": RM, "RULE_COMMON": RC, "RULE_ABSTRACT": RA,
            "MULT_ONEORMORE": "1..*", "MULT_ZEROORMORE": "0..*", "MULT_ONE": "1", "MULT_OPTIONAL": "0..1",
            "get_location": pyeval.PyFn(lambda o: {"line": ("line-of", id(o)), "col": 1, "nchar": 2, "filename": "f"}),
-           "TextXSemanticError": pyeval.PyFn(lambda *a, **k: {".exc": "TextXSemanticError"})}
+           "TextXSemanticError": pyeval.PyFn(lambda *a, **k: {".exc": "TextXSemanticError"}),
+           # locals of the enclosing parse_tree_to_objgraph a closure could reach: they belong to the MAIN model of the load
+           "parser": {".kind": "parser", ".pos_to_linecol": pyeval.PyFn(lambda pos: ("main-parser-line", pos)), ".metamodel": mm, ".file_name": "main.file"}, "file_name": "main.file", "model": model}
     for p_, d_ in zip(ps[len(ps) - len(cp.args.defaults):], cp.args.defaults): env[p_] = pyeval.evaluate(d_, {})
     try: k, v = "ret", pyeval.run_block(cp.body, env)
     except pyeval.Raised as r_: k, v = "raise", r_.cls
@@ -75,7 +89,7 @@ def r_C13eval(root):
     rep(not any(n == "ID" for _o, n, _l in log) and model.get(".name") == "n", "C13.c", "match-rule values are skipped", "the walker ran a processor on a match-rule value (these run during model construction, in process_match)")
     # single-valued replacement
     inst += 0
-    registered["Leaf"] = lambda o: R1; del log[:]
+    log1 = list(log); registered["Leaf"] = lambda o: R1; del log[:]
     model2 = obj(cModel, items=[], single=leaf1, ref=leaf2, name="n")
     env2 = dict(env); env2[ps[1]] = model2
     for p_, d_ in zip(ps[len(ps) - len(cp.args.defaults):], cp.args.defaults): env2[p_] = pyeval.evaluate(d_, {})
@@ -84,5 +98,5 @@ def r_C13eval(root):
     except pyeval.Unsupported as u_: raise AnalysisError("call_obj_processors: outside the evaluated subset: %s" % u_)
     rep(k2 == "ret" and model2.get(".single") is R1, "C13.b", "replacement in a single-valued attribute", "a processor result for a single contained object is not stored back into the attribute (%s)" % k2)
     # the location handed to process() is the object's own
-    rep(all(l == {"line": ("line-of", id(o)), "col": 1, "nchar": 2, "filename": "f"} for o, _n, l in log) and bool(log), "C33.b", "process() receives the location of the processed object", "metamodel.process is not given get_location(<the processed object>) as its location arguments: an error raised by the processor cannot be located at the object", prop="C33")
+    rep(all(l == {"line": ("line-of", id(o)), "col": 1, "nchar": 2, "filename": "f"} for o, _n, l in log1 + log) and bool(log1), "C33.b", "process() receives the location of the processed object", "metamodel.process is not given get_location(<the processed object>) as its location arguments: an error raised by the processor cannot be located at the object", prop="C33")
     return inst, out
